@@ -64,6 +64,11 @@ inline DevStats explore_deviations(int bound, Body body) {
 }
 
 // ---------------------------------------------------------------------------------------------
+// optional: harness-provided formatter turning (cfg name, op history) into replay text (used for crash attribution)
+inline std::function<std::string(const std::string&, const std::vector<int>&)>& case_formatter() {
+  static std::function<std::string(const std::string&, const std::vector<int>&)> f; return f;
+}
+
 struct BfsStats {
   long long states = 0, transitions = 0, replays = 0, pruned = 0;
   int max_depth = 0, depth_completed = 0;
@@ -126,8 +131,9 @@ inline BfsStats bfs_histories(const Cfg& cfg, int max_depth, const std::string& 
       names += s.op_name(op);
       st.replays++;
       st.transitions++;
-      bool ok = s.apply(op, why);
       std::vector<int> h2 = nd.hist; h2.push_back(op);
+      if (case_formatter()) vh::set_case(case_formatter()(cfg_name, h2));
+      bool ok = s.apply(op, why);
       if (!ok) {
         on_violation(h2, names, why);
         continue;   // do not expand beyond a violating state
